@@ -152,13 +152,24 @@ class string_shims:
 
 
 def judge_contract(call: Any) -> Tuple[str, List[Tuple[str, str]]]:
+    from ..symx import Ctx as _C, _arm
+
+    concrete = _C.cur is None
     try:
-        tree = call()
+        if concrete:
+            _arm(10.0)  # outside an exploration (replay): a parse of a few characters that takes longer does not terminate
+        try:
+            tree = call()
+        finally:
+            if concrete:
+                _arm(0)
     except ALLOWED as e:
         return "reject", []
     except RecursionError:
         raise
     except Budget:
+        if _C.cur is not None:
+            _C.cur.steps = 0  # the budget is spent: the reference model and the model extraction that follow get a new one
         return "internal", [("internal-error", "no result within the step / wall-clock budget (does not terminate?)")]
     except Exception as e:
         return "internal", [("internal-error", f"raised {type(e).__name__}: {str(e)[:80]}")]
